@@ -7,6 +7,7 @@ A_WRAP = 'contract enforced by a harness wrapper (assume requires; call the real
 
 QUERIES = []
 HOOK_COMMITS = []
+import os
 NOT_YET = {}
 NOTES = ('Contract-based deductive verification of the real kalign sources with CBMC; see DESIGN.md. '
          'Obligation classes: (P) proved unbounded / full-domain, (B) bounded stand-in, (S) static fact; never mixed in counts.')
@@ -525,8 +526,8 @@ PROPS['C15'] = dict(
 PROPS['C06'] = dict(
     level='other',
     level_text=('bounded contract checks that compose to the round trip: C15.writers shows each writer emits, byte for byte, the text the format rules prescribe for a symbolic alignment; '
-                'C05.read_fasta and C06.readers (Clustal) show the reader returns, for block-structured text of that shape, one record per row with the same name, residues and every gap count'),
-    level_note=('bounded and partial: the MSF reader query exhausts memory, is not registered, and read_msf is NOT decided; reader texts use shortened header lines and small blocks (the readers do not depend on the block constant); '
+                'C05.read_fasta, C06.readers (Clustal) and C06.read_msf show the reader returns, for block-structured text of that shape, one record per row with the same name, residues and every gap count'),
+    level_note=('bounded: 2-3 rows, 2-6 columns; reader texts use shortened header lines and small blocks (the readers do not depend on the block constant); read_msf is decided under a case split on the stored name length (R3 identity substitution, one-letter names); '
                 'the composition writer -> text -> reader and the cross-format pairs are meta-arguments over the common abstract rows'),
     technique=T_CB + ' (harness-enforced), bounded unwinding, capacity-shrunk copies; native replay',
     explanation=EXPL_COMMON)
@@ -551,6 +552,22 @@ Q(id='C06.readers', props=['C06', 'C04', 'C05'], cls='B', harness='c06_readers.c
   trusted=[TRUST_MSG, 'strstr/strnlen loop stubs', 'realloc byte-copy stub', 'isalpha/ispunct/isspace: CBMC C-locale models', 'R3 capacity shrink (records 512 -> 4, residues 512 -> 2)'],
   assumptions=[A_NOFAIL, A_WRAP, 'bounded: 2-3 rows, 2-6 columns in blocks of 2-3 (the readers do not depend on the block constant 60), row bytes from {-,A,c,N}; header lines shortened to the keywords the readers look for'])
 
+def _msf_reader_shapes(tier):
+    out = []
+    shapes = [(2, 2, 2, 0), (2, 3, 3, 0), (2, 2, 2, 1), (2, 2, 2, 2)] if tier == 'quick' else [(2, 2, 2, 0), (2, 3, 2, 0), (2, 3, 3, 0), (2, 2, 2, 1), (2, 2, 2, 2), (2, 3, 3, 2)]
+    for n, w, blk, hostile in shapes:
+        nlines = 12 + n + ((w + blk - 1) // blk) * (n + 2 + (3 if hostile == 1 else 0))
+        out.append(dict(name='n%d_w%d_block%d_fmt2%s' % (n, w, blk, {0: '', 1: '_extrarows', 2: '_lenfirst'}[hostile]),
+                        defs=dict(KV_N=n, KV_W=w, KV_BLOCK=blk, KV_FMT=2, KV_NAMELEN=1, KV_HOSTILE=hostile, KV_CAP=4), unwind=max(18, nlines)))
+    return out
+Q(id='C06.read_msf', props=['C06', 'C04', 'C05'], cls='B', harness='c06_readers.c', entry='h_c06_readers', shapes=_msf_reader_shapes,
+  mode='wrap', timeout=1500, loops_files=['msa_alloc.shrink.loops', 'msa_io.shrink.loops', 'msa_io.msf.loops'], shrink=True, leak_check=True,
+  defs=['-DKV_SEQCAP=2'], object_bits=11, unwindset={'strnlen.0': 258},
+  funcs=['read_msf', 'null_terminate_sequences', 'resize_msa_seq', 'alloc_msa', 'kalign_free_msa'],
+  srcs=['lib/src/msa_alloc.c', 'lib/src/msa_op.c', 'lib/src/msa_misc.c', 'lib/src/alphabet.c', 'lib/src/tlmisc.c'], native_srcs=READER_NATIVE,
+  trusted=[TRUST_MSG, 'strstr/strnlen loop stubs', 'realloc byte-copy stub', 'isalpha/ispunct/isspace: CBMC C-locale models', 'R3 capacity shrink (records 512 -> 4, residues 512 -> 2)',
+           'R3 identity substitution in read_msf: the skip strnlen(stored name) is asserted equal to the name length of the shape and replaced by that constant (contracts/msa_io.msf.loops)'],
+  assumptions=[A_NOFAIL, A_WRAP, 'bounded: 2 rows, 2-3 columns in blocks of 2-3, row bytes from {-,A,c,N}; one-letter names; header lines shortened to the keywords the reader looks for'])
 # =========================================================================== C12 upgma
 def _upgma_shapes(tier):
     s = [(3, 2), (4, 2), (4, 3)] if tier == 'quick' else [(3, 2), (4, 2), (4, 3), (5, 2), (5, 3), (5, 4)]
@@ -592,6 +609,33 @@ PROPS['C02'] = dict(
 NOT_YET['C08'] = ('not applicable within this technique on this code: "identical inputs align without gaps" is a statement about the result of the whole recursive Hirschberg driver '
                   '(aln_runner / aln_continue mutual recursion with symbolic meeting points did not finish symbolic execution for a 2x3 problem, DESIGN 2.2), and no per-function contract implies it; '
                   'the component obligations that stand behind it are decided under C07 (kernels equal the recurrence, backward mirrors forward), C10/C01 (merge step) and C12 (upgma groups copies)')
+# =========================================================================== C08 diagonal step
+def _diag_shapes(tier):
+    out = []
+    for typ, tn in ((0, 'dna'), (1, 'internal'), (2, 'rna'), (3, 'protein'), (4, 'divergent')):
+        if tier == 'quick':
+            nmax = 4 if typ < 3 else 3
+        else:
+            nmax = 6 if typ < 3 else 5      # measured: rna n8 > 1200 s, dna n6 64 s, protein n5 250 s
+        for n in range(1, nmax + 1):
+            for ts in (1, 0):
+                for te in (1, 0):
+                    out.append(dict(name='%s_n%d_ts%d_te%d' % (tn, n, ts, te), defs=dict(KV_N=n, KV_TS=ts, KV_TE=te, KV_TYPE=typ)))
+    return out
+Q(id='C08.seqseq.diag_step', props=['C08'], cls='B', harness='c08_diag.c', entry='h_c08_diag', shapes=_diag_shapes,
+  mode='wrap', unwind=26, timeout=1200, funcs=['aln_seqseq_foward', 'aln_seqseq_backward', 'aln_seqseq_meetup', 'aln_param_init'],
+  trusted=[TRUST_MSG, 'fabsf: CBMC library model'],
+  assumptions=[A_FLOAT, A_WRAP, A_NOFAIL, 'bounded: diagonal blocks of 1..4 nucleotide / 1..3 protein (thorough 1..6 / 1..5) rows, touching / not touching either end of the sequences, all five alignment types with the library\'s own matrices and default penalties, every residue code symbolic for the nucleotide types, 7 of the 23 codes (A C G W B Z X) for the protein types',
+               'the kernels are called with the arguments aln_runner_serial passes (contract C07.aln_runner_serial); the induction over the recursion (aln_continue contract) is a meta-argument'],
+  native_srcs=['lib/src/tldevel.c'])
+PROPS['C08'] = dict(
+    level='other',
+    level_text=('bounded contract check of the recursion step: on a diagonal block of identical operands with unit boundary states the real forward / backward kernels and the real meetup return the transition aligned -> aligned on the diagonal, '
+                'for every residue content (all five alignment types, the library\'s own matrices); the recursion invariant is carried by the proved contracts of aln_runner_serial and aln_continue'),
+    level_note=('bounded: blocks of up to 4 (thorough 6) rows, so identical sequences longer than that are NOT decided; sequence-sequence kernel only (two copies); groups of copies (profile kernels), '
+                'the k-means fallback and the induction over the recursion / guide tree are meta-arguments or undecided'),
+    technique=T_CB + ' (harness-enforced), bounded complete unwinding, bit-precise floats; native replay',
+    explanation=EXPL_COMMON)
 Q(id='C11.calc_distance', props=['C11', 'C12'], cls='P', harness='c11_calc_distance.c', entry='h_c11_calc_distance',
   mode='wrap', unwind=4, timeout=300, funcs=['calc_distance'], native_srcs=['lib/src/tldevel.c', 'lib/src/msa_alloc.c', 'lib/src/alphabet.c', 'lib/src/tlmisc.c'],
   trusted=[TRUST_MSG, 'bpm_block replaced by a recording stub with its contract (value in 0..1024; C11.bpm_block)'], assumptions=[A_WRAP])
@@ -618,7 +662,7 @@ def _profile_shapes(tier):
         add(2, 2, 2, 2, 0, 2, 2, 2)
         return out
     for ka, kb in [(2, 1), (3, 1), (2, 2)]:
-        for lb in (2, 3):
+        for lb in ((2,) if (ka, kb) == (2, 2) else (2, 3)):      # (2,2) with 3 columns: > 900 s, not registered
             for sb in (0, 1):
                 for eb in (lb - 1, lb):
                     if eb - sb < 1:
@@ -628,7 +672,8 @@ def _profile_shapes(tier):
     return out
 def _profile_mirror_shapes(tier):
     sh = _profile_shapes(tier)
-    return sh[1:2] if tier == 'quick' else sh
+    # measured: the mirror query finishes only for a group of 2 against a single sequence (others > 1200 s): not registered
+    return sh[1:2] if tier == 'quick' else [x for x in sh if x['name'].startswith('ka2_kb1_')]
 Q(id='C07.profiles.fwd_groups', props=['C07', 'C08'], cls='B', harness='c07_profiles.c', entry='h_c07_profiles', shapes=_profile_shapes,
   mode='wrap', unwind=8, timeout=900, funcs=['aln_seqprofile_foward', 'aln_profileprofile_foward', 'make_profile_n', 'update_n', 'set_gap_penalties_n'],
   srcs=['lib/src/aln_mem.c'], native_srcs=['lib/src/tldevel.c', 'lib/src/aln_mem.c'], trusted=[TRUST_MSG],
